@@ -597,6 +597,8 @@ func checkC01(c *Ctx) {
 	checkNilFuncCall(c)
 	checkMacroBudget(c)
 	checkPairedNil(c, "C01.paired-nil")
+	checkNilMapWrite(c, "C01.nil-map-write")
+	checkRepeatCount(c, "C01.repeat-count")
 	checkSourcePos(c)
 }
 
@@ -1235,6 +1237,16 @@ func checkC01Input(c *Ctx) {
 						}
 						if kk, ok := constInt(rel.Y); ok && ((rel.Op == token.GEQ && kk >= 0) || (rel.Op == token.GTR && kk >= -1)) {
 							guarded = true
+						}
+						// idx > max(…, k) with k >= -1 (a hoisted bound)
+						if mc, ok := rel.Y.(*ssa.Call); ok && rel.Op == token.GTR {
+							if b, isB := mc.Call.Value.(*ssa.Builtin); isB && b.Name() == "max" {
+								for _, a := range mc.Call.Args {
+									if kk, isK := constInt(a); isK && kk >= -1 {
+										guarded = true
+									}
+								}
+							}
 						}
 					}
 				}
